@@ -21,6 +21,25 @@ MAXRATIO = {('backward', 1): 4.6e-11, ('backward', 2): 4.6e-06, ('backward', 3):
 ENV = {k: 100.0 * v for k, v in MAXRATIO.items()}            # C01: |result - exact| <= ENV * S
 FLOOR = {k: 0.01 * v for k, v in MAXRATIO.items()}           # C02: |result - exact| <= K_EST * estimate + FLOOR * S
 K_EST = 1000.0
+# complex-step methods with a user generator of several moderate steps (MaxStepGenerator(base_step=0.1, step_ratio=2, num_steps=5) /
+# MinStepGenerator(base_step=1e-3, step_ratio=2, num_steps=8), step_nom=1): worst |result - exact| / S(n..n+8) on the unchanged tree per
+# (method, n, order, generator), 6 seeds x 1200 programs; the envelope is 100 x these
+MULTISTEP_WORST = {('complex', 1, 1, 'max'): 3.2e-14, ('complex', 1, 1, 'min'): 1.6e-15, ('complex', 1, 2, 'max'): 3.1e-14,
+                   ('complex', 1, 2, 'min'): 1.1e-15, ('complex', 1, 3, 'max'): 3.5e-14, ('complex', 1, 3, 'min'): 1.1e-15,
+                   ('complex', 1, 4, 'max'): 1.1e-13, ('complex', 1, 4, 'min'): 6.2e-14, ('complex', 1, 5, 'max'): 6.8e-14,
+                   ('complex', 1, 5, 'min'): 4.7e-14, ('complex', 1, 6, 'max'): 2.1e-13, ('complex', 1, 6, 'min'): 3.8e-14,
+                   ('complex', 2, 1, 'max'): 6.5e-14, ('complex', 2, 1, 'min'): 4.5e-14, ('complex', 2, 2, 'max'): 6.3e-14,
+                   ('complex', 2, 2, 'min'): 1.1e-13, ('complex', 2, 3, 'max'): 4.6e-14, ('complex', 2, 3, 'min'): 3.5e-14,
+                   ('complex', 2, 4, 'max'): 5.3e-14, ('complex', 2, 4, 'min'): 6.6e-14, ('complex', 2, 5, 'max'): 1.0e-13,
+                   ('complex', 2, 5, 'min'): 2.6e-14, ('complex', 2, 6, 'max'): 2.7e-13, ('complex', 2, 6, 'min'): 7.1e-14,
+                   ('multicomplex', 1, 1, 'max'): 9.5e-14, ('multicomplex', 1, 1, 'min'): 7.8e-15, ('multicomplex', 1, 2, 'max'): 3.7e-14,
+                   ('multicomplex', 1, 2, 'min'): 2.1e-14, ('multicomplex', 1, 3, 'max'): 3.1e-14, ('multicomplex', 1, 3, 'min'): 3.9e-15,
+                   ('multicomplex', 1, 4, 'max'): 8.8e-13, ('multicomplex', 1, 4, 'min'): 6.2e-15, ('multicomplex', 1, 5, 'max'): 8.9e-13,
+                   ('multicomplex', 1, 5, 'min'): 1.3e-15, ('multicomplex', 1, 6, 'max'): 1.6e-08, ('multicomplex', 1, 6, 'min'): 9.9e-12,
+                   ('multicomplex', 2, 1, 'max'): 5.0e-11, ('multicomplex', 2, 1, 'min'): 2.5e-15, ('multicomplex', 2, 2, 'max'): 1.7e-10,
+                   ('multicomplex', 2, 2, 'min'): 1.8e-14, ('multicomplex', 2, 3, 'max'): 7.3e-12, ('multicomplex', 2, 3, 'min'): 8.1e-14,
+                   ('multicomplex', 2, 4, 'max'): 3.4e-10, ('multicomplex', 2, 4, 'min'): 1.3e-13, ('multicomplex', 2, 5, 'max'): 2.4e-10,
+                   ('multicomplex', 2, 5, 'min'): 2.4e-15, ('multicomplex', 2, 6, 'max'): 2.8e-07, ('multicomplex', 2, 6, 'min'): 1.7e-10}
 
 
 def uses(tree, names):
@@ -54,11 +73,27 @@ def big_hyperbolic_argument(tree, x):
     return worst[0] > 300
 
 
-def under_resolution(d, n, h):
-    """max over k = 2, 4 of |f^(n+k)(x)| h^k / k! relative to |f^(n)(x)|: how large the next Taylor terms of the n-th derivative are
-    at distance h"""
+def under_resolution(d, n, h, tree=None, x=None):
+    """how badly f is under-resolved at distance h: (i) max over k = 2, 4 of |f^(n+k)(x)| h^k / k! relative to |f^(n)(x)| (how large
+    the next Taylor terms of the n-th derivative are), and, when the program is given, (ii) how far f itself is from its Taylor
+    polynomial (all known derivatives) at x +- h, x +- h/2, relative to the local size of f — a saturated function such as
+    tanh(x sinh(sin(2 x^2))) at x = -75 has all derivatives ~0 at x and flips sign 0.01 away"""
     base = abs(d[n]) + 1e-300
-    return max(abs(d[n + k]) * h ** k / math.factorial(k) / base for k in (2, 4) if n + k < len(d))
+    ur = max([abs(d[n + k]) * h ** k / math.factorial(k) / base for k in (2, 4) if n + k < len(d)] or [0.0])
+    if tree is not None and h > 0 and math.isfinite(h):
+        s0 = max(abs(v) / math.factorial(k) for k, v in enumerate(d)) + 1e-300
+        for t in (h, -h, h / 2, -h / 2):
+            try:
+                with warnings.catch_warnings():
+                    warnings.simplefilter('ignore')
+                    fv = float(tree(x + t))
+            except Exception:
+                continue
+            if not math.isfinite(fv):
+                continue
+            tay = sum(v * t ** k / math.factorial(k) for k, v in enumerate(d))
+            ur = max(ur, abs(fv - tay) / max(s0, abs(tay)))
+    return ur
 
 
 def under_resolved_probe(ctx):
@@ -190,11 +225,17 @@ def derivative_search(ctx, budget, honesty):
         err = abs(v - d[n]) if math.isfinite(v) else float('inf')
         ratio = err / S
         worst[(m, n)] = max(worst.get((m, n), 0.0), ratio / ENV[(m, n)])
+        # the rounding noise of the double-precision evaluation of this expression (running error bound of the oracle's own recurrences):
+        # for the complex-step methods it enters the n-th derivative directly, for the real-step methods through eps_f / h^n
+        hfin_c = abs(float(np.ravel(info.final_step)[pick]))
+        cond_n = (d.cond[n] if getattr(d, 'cond', None) else 0.0)
+        cond_0 = (d.cond[0] if getattr(d, 'cond', None) else 0.0)
+        conditioning = cond_n if m in ('complex', 'multicomplex') else (10.0 * cond_0 / hfin_c ** n if hfin_c > 0 else 0.0)
         if not honesty:
-            if not ratio <= ENV[(m, n)]:
+            if not err <= ENV[(m, n)] * S + conditioning:
                 # recorded finding: f is under-resolved at the step the generator ends on (see under_resolution)
                 hfin = abs(float(np.ravel(info.final_step)[pick]))
-                ur = under_resolution(d, n, hfin)
+                ur = under_resolution(d, n, hfin, tree, x)
                 sig1 = sig or ('C01-under-resolved-at-final-step' if ur > 0.25 else None)
                 ctx.violation('Derivative is outside the accuracy envelope of (%s, n=%d)' % (m, n), got=v, error=err, local_scale=S,
                               ratio=ratio, envelope=ENV[(m, n)], final_step=hfin, under_resolution=ur, signature=sig1, **rep)
@@ -214,22 +255,144 @@ def derivative_search(ctx, budget, honesty):
             # nearly equal values — the resolution of a difference quotient at the step the result was read at, eps |f(x)| / h^n
             hfin0 = abs(float(np.ravel(info.final_step)[pick]))
             resolution = 10.0 * 2.0 ** -52 * abs(direct) / hfin0 ** n if (m in ('central', 'forward', 'backward') and hfin0 > 0) else 0.0
+            resolution += conditioning
             if not err <= K_EST * est + FLOOR[(m, n)] * S + resolution:
                 # recorded finding: f is under-resolved at the step the generator ends on (the next Taylor terms of f^(n) at that step
                 # are comparable with f^(n) itself), and the extrapolation of the short sequence does not see the truncation error
                 hfin = abs(float(np.ravel(info.final_step)[pick]))
-                ur = under_resolution(d, n, hfin)
+                ur = under_resolution(d, n, hfin, tree, x)
                 sig2 = sig or ('C02-under-resolved-at-final-step' if ur > 0.25 else None)
                 ctx.violation('true error exceeds %g x error_estimate + rounding floor' % K_EST, got=v, error=err, error_estimate=est,
                               floor=FLOOR[(m, n)] * S + resolution, final_step=hfin, under_resolution=ur, signature=sig2, **rep)
     if honesty:
+        nan_tail_family(ctx, max(120, budget // 3))
         under_resolved_probe(ctx)
         stationary_single_estimate(ctx, max(20, budget // 8))
     else:
         shared_generator_probe(ctx, max(6, budget // 60))
+        multistep_complex_family(ctx, max(80, budget // 5))
     ctx.notes.append('%d programs skipped: not finite at the complex points of the stencil' % skipped_nonfinite[0])
     ctx.notes.append('worst ratio / envelope per (method, n) on this run: %s'
                      % {('%s,%d' % k): float('%.2g' % v) for k, v in sorted(worst.items())})
+
+
+def multistep_complex_family(ctx, budget):
+    """complex / multicomplex with a user-supplied generator of several moderate steps: here the Richardson stage (error terms
+    h^2, h^4, .. for both methods) does real work, unlike with the default single tiny step; accuracy envelope per
+    (method, n, order, generator) calibrated on the unchanged tree (MULTISTEP_WORST x 100), relative to S(n .. n+8)"""
+    import numdifftools as nd
+    from numdifftools.step_generators import MinStepGenerator, MaxStepGenerator
+    rng = ctx.rng
+    worst = 0.0
+    done = 0
+    for _ in range(budget):
+        m = rng.choice(['multicomplex', 'multicomplex', 'complex'])
+        n = rng.randint(1, 2)
+        order = rng.randint(1, 6)
+        tree, x, d = gen_program(rng, 10, depth=rng.randint(1, 3), xs=lambda r: r.choice([1, -1]) * 10.0 ** r.uniform(-1, 1))
+        if (m == 'multicomplex' and big_hyperbolic_argument(tree, x)) or tiny_log1p_argument(tree, x):
+            continue
+        if m == 'multicomplex' and n == 2 and uses(tree, ('arcsin', 'arccos', 'arctan')):
+            continue          # the recorded finding C01-multicomplex2-inverse-trig
+        gk = rng.choice(['max', 'min'])
+        g = MaxStepGenerator(base_step=0.1, step_ratio=2.0, num_steps=5, step_nom=1.0) if gk == 'max' else \
+            MinStepGenerator(base_step=1e-3, step_ratio=2.0, num_steps=8, step_nom=1.0)
+        bad = [False]
+
+        def f(t, tree=tree, bad=bad):
+            r = tree(t)
+            if not np.all(np.isfinite(np.asarray(getattr(r, 'z1', r)))):
+                bad[0] = True
+            return r
+        rep = dict(program=str(tree), x=x, method=m, n=n, order=order, exact=d[n],
+                   step='MaxStepGenerator(base_step=0.1, step_ratio=2, num_steps=5, step_nom=1)' if gk == 'max' else
+                   'MinStepGenerator(base_step=1e-3, step_ratio=2, num_steps=8, step_nom=1)')
+        try:
+            with warnings.catch_warnings():
+                warnings.simplefilter('ignore')
+                v = float(nd.Derivative(f, n=n, method=m, order=order, step=g)(x))
+        except Exception as ex:
+            ctx.tried(('multistep', m, n, order, gk, str(tree), x))
+            ctx.violation('Derivative raised %r' % ex, **rep)
+            continue
+        if bad[0]:
+            ctx.tried(None)
+            continue
+        ctx.tried(('multistep', m, n, order, gk, str(tree), x))
+        done += 1
+        S = local_scale(d, n, n + 8)
+        ratio = (abs(v - d[n]) if math.isfinite(v) else float('inf')) / S
+        env = max(100.0 * MULTISTEP_WORST[(m, n, order, gk)], 1e-12)
+        worst = max(worst, ratio / env)
+        if not abs(v - d[n]) <= env * S + (d.cond[n] if getattr(d, 'cond', None) else 0.0):
+            ctx.violation('Derivative (complex-step method, user generator with several moderate steps) is outside the accuracy envelope of '
+                          '(%s, n=%d, order=%d)' % (m, n, order), got=v, error=abs(v - d[n]), local_scale=S, ratio=ratio, envelope=env, **rep)
+    ctx.notes.append('multi-step complex family: %d cases, worst ratio / envelope = %.3g' % (done, worst))
+
+
+def nan_tail_family(ctx, budget):
+    """Honesty where the largest steps leave the domain: functions undefined to the left of 0 (log, sqrt, x log x, x^1.5, closed-form
+    derivatives) at 0.3 <= x <= 3 with central / backward steps and step options that make the first estimates NaN (default, ratio 2 or 3,
+    12..26 steps).  The value returned must belong to the same row as the error estimate returned with it: |value - exact| <=
+    K_EST * estimate + 1e-8 * scale + 10 eps |f(x)| / final_step^n (unchanged tree: worst ratio 6.6 with a floor of 1e-9 * scale over 6000 cases)."""
+    import numdifftools as nd
+    rng = ctx.rng
+    funs = {
+        'log(x)': (np.log, {1: lambda x: 1 / x, 2: lambda x: -1 / x ** 2, 3: lambda x: 2 / x ** 3, 4: lambda x: -6 / x ** 4}),
+        'sqrt(x)': (np.sqrt, {1: lambda x: 0.5 * x ** -0.5, 2: lambda x: -0.25 * x ** -1.5, 3: lambda x: 0.375 * x ** -2.5,
+                              4: lambda x: -0.9375 * x ** -3.5}),
+        'x*log(x)': (lambda x: x * np.log(x), {1: lambda x: np.log(x) + 1, 2: lambda x: 1 / x, 3: lambda x: -1 / x ** 2, 4: lambda x: 2 / x ** 3}),
+        'x**1.5': (lambda x: x ** 1.5, {1: lambda x: 1.5 * x ** 0.5, 2: lambda x: 0.75 * x ** -0.5, 3: lambda x: -0.375 * x ** -1.5,
+                                        4: lambda x: 0.5625 * x ** -2.5}),
+    }
+    worst = 0.0
+    nan_seen = all_nan = 0
+    for _ in range(budget):
+        name = rng.choice(sorted(funs))
+        fun, ex = funs[name]
+        x = rng.uniform(0.3, 3.0)
+        m = rng.choice(['central', 'central', 'backward'])
+        n = rng.randint(1, 4)
+        order = rng.choice([2, 4, 6] if m == 'central' else [1, 2, 3, 4])
+        opts = rng.choice([{}, {'step_ratio': 3.0}, {'step_ratio': 3.0}, {'step_ratio': 2.0}, {'num_steps': rng.randint(18, 26), 'step_ratio': 2.0},
+                           {'num_steps': rng.randint(12, 20)}])
+        seen = [False]
+
+        def f(t, fun=fun, seen=seen):
+            r = fun(t)
+            if not np.all(np.isfinite(r)):
+                seen[0] = True
+            return r
+        rep = dict(program=name, x=x, method=m, n=n, order=order, step_options=opts)
+        ctx.tried(('nan-tail', name, x, m, n, order, str(opts)))
+        try:
+            with warnings.catch_warnings():
+                warnings.simplefilter('ignore')
+                val, info = nd.Derivative(f, n=n, method=m, order=order, full_output=True, **opts)(x)
+        except Exception as ex_:
+            ctx.violation('Derivative raised %r' % ex_, **rep)
+            continue
+        nan_seen += seen[0]
+        exact = float(ex[n](x))
+        v, est = float(val), float(info.error_estimate)
+        scale = abs(float(fun(x))) + abs(exact)
+        if not math.isfinite(v) and seen[0]:
+            all_nan += 1          # too few steps stay inside the domain for a single finite estimate: the library answers NaN, not a number
+            continue
+        err = abs(v - exact) if math.isfinite(v) else float('inf')
+        if math.isfinite(v) and not (math.isfinite(est) and est >= 0):
+            ctx.violation('error_estimate negative or not finite although the result is finite', got=v, error_estimate=est, **rep)
+            continue
+        # as in the main search: the resolution of a difference quotient at the step the result was read at, eps |f(x)| / h^n, belongs to
+        # the rounding floor (with 26 halvings the smallest steps are ~1e-6, where a second difference resolves nothing below 1e-4)
+        hfin = abs(float(info.final_step))
+        resolution = 10.0 * 2.0 ** -52 * abs(float(fun(x))) / hfin ** n if hfin > 0 else 0.0
+        worst = max(worst, err / (est + 1e-9 * scale + resolution))
+        if not err <= K_EST * est + 1e-8 * scale + resolution:
+            ctx.violation('true error exceeds %g x error_estimate + rounding floor (the largest steps leave the domain of f: NaN rows)' % K_EST,
+                          got=v, exact=exact, error=err, error_estimate=est, floor=1e-8 * scale + resolution, final_step=hfin, **rep)
+    ctx.notes.append('NaN-tail family: %d cases, %d with NaN estimates at the largest steps (%d with no finite estimate at all: result NaN, skipped); '
+                     'worst error / (estimate + floor) = %.3g (bound %g)' % (budget, nan_seen, all_nan, worst, K_EST))
 
 
 def stationary_single_estimate(ctx, budget):
